@@ -139,6 +139,7 @@ type Stats struct {
 	Fallbacks    int
 	CacheHits    int
 	LooseKept    int
+	RegexQ       int
 }
 
 type extFn func(in *Interp, fr *frame, fn *ssa.Function, args []Value) Value
